@@ -87,7 +87,7 @@ impl Monitor for C16 {
 		vec!["the harness does not enable serde_json/preserve_order; serde_json::Map iteration order is whatever peppi's build gives it".into(), "nesting is bounded by 127 (serde_json's recursion limit, which .slpp imposes)".into()]
 	}
 	fn n_cases(&self, ctx: &Ctx) -> usize {
-		ctx.tier.pick(1200, 60000)
+		ctx.tier.pick(6000, 120000)
 	}
 	fn min_classes(&self, _tier: Tier) -> usize {
 		20
